@@ -170,3 +170,11 @@ mod tests {
     assert_eq!(joypad.get_interrupt(), InterruptFlag::empty());
   }
 }
+
+#[cfg(gb_dynarec_verif)]
+impl Joypad {
+  /// Whether a joypad interrupt request is latched but not yet collected
+  pub fn verif_pending(&self) -> bool {
+    self.next_interrupt.as_u8() != 0
+  }
+}
